@@ -47,7 +47,7 @@ func genCase(t *rapid.T) (Case, *env.Env) {
 	if cfg.AtoInf() {
 		cfg.AtoMS = 0
 	}
-	if cfg.AtoMS >= segMS {
+	if cfg.AtoMS >= segMS && cfg.Type == "number" {
 		cfg.AtoMS = segMS / 3
 	}
 	if cfg.TsbdS > 600 {
@@ -305,9 +305,10 @@ func checkCase(c Case, e *env.Env) (*hx.Violation, info) {
 					kind = "KF-C05-window-removal"
 				} else if c.Periods > 0 && a.lastT == b.lastT && a.lastPer == b.lastPer && (a.firstPer != b.firstPer || a.firstT != b.firstT) {
 					kind = "KF-C05-window-removal"
-				} else if c.Periods > 0 && c.Cfg.Type != "number" && a.lastT == b.lastT && a.lastPer != b.lastPer {
-					// defect model: a new (still empty) Period is appended at a period boundary that is not the availability
-					// instant of a segment, so publishTime does not move
+				} else if c.Periods > 0 && c.Cfg.Type != "number" && a.lastPer != b.lastPer && (a.lastT == b.lastT || c.Cfg.AtoMS != 0) {
+					// defect model: a new Period is appended at a period boundary that is not the availability instant of a
+					// segment (with ato != 0 the segments of the coming period are available, and counted in publishTime,
+					// before the period is listed), so publishTime does not move
 					kind = "KF-C05-period-start"
 				}
 				return hx.V(kind, "publishTime %s at both %d ms and %d ms but the documents differ (first listed %d vs %d, first period %s vs %s)", a.m.PublishTime, a.now, b.now, a.firstT, b.firstT, a.firstPer, b.firstPer), inf
